@@ -34,7 +34,7 @@ build/%_model: coq/Extract/Extract_%.v driver/%_main.ml driver/common.ml coq/Ext
 	@mkdir -p build/ocaml/$*
 	cd build/ocaml/$* && coqc -Q ../../../coq LV ../../../coq/Extract/Extract_$*.v >/dev/null
 	cat build/ocaml/$*/$*_model.ml driver/common.ml driver/$*_main.ml > build/ocaml/$*/$*_all.ml
-	cd build/ocaml/$* && ocamlfind ocamlopt -O2 -w -a $*_all.ml -o ../../$*_model 2>/dev/null || \
+	(cd build/ocaml/$* && ocamlfind ocamlopt -O2 -w -a $*_all.ml -o ../../$*_model 2>/dev/null) || \
 	  (cd build/ocaml/$* && ocamlfind ocamlopt -w -a $*_all.ml -o ../../$*_model)
 
 coq/Extract/Extract_%.vo: coqproject FORCE
